@@ -113,9 +113,19 @@ Fixpoint eval_off (p : formula) (w : trace) (n : nat) {struct p} : list V :=
   | Precedes _ _ _ _ => []   (* 'Offline does not need visitTimedPrecedes': rejected, see off_supported *)
   end.
 
-(* the whole evaluate(): outcome classes *)
+End Offline.
+
+(* outcome classes of an API call: a value, an RTAMTException, any other exception *)
 Inductive outcome (A : Type) := Ok (a : A) | Rtamt | Crash.
 Arguments Ok {A} _. Arguments Rtamt {A}. Arguments Crash {A}.
 
-End Offline.
-Arguments Ok {A} _. Arguments Rtamt {A}. Arguments Crash {A}.
+Section Evaluate.
+Context {VS : Val} (AR : Arith VS).
+Variable pk : formula -> formula -> pkind.
+
+(* AbstractDiscreteTimeOfflineInterpreter.evaluate: length = len(dataset['time']),
+   result = [[t, v] for t, v in zip(ts, rob)]; the time-stamps (any type T) are
+   only paired with the values.  TimedPrecedes is rejected by the visitor. *)
+Definition evaluate {T : Type} (p : formula) (ts : list T) (w : trace) : outcome (list (T * V)) :=
+  if no_precedes p then Ok (combine ts (eval_off AR pk p w (length ts))) else Rtamt.
+End Evaluate.
